@@ -33,7 +33,7 @@ REQUIRED = {"wild.summary_counts_match_census": {"quick": 8, "thorough": 300}, "
             "conservation.sum_equals_elements": {"quick": 3000, "thorough": 150000},
             "collector.delegation_form_counts_match_census": {"quick": 800, "thorough": 40000},
             "process.summary_counts_scenarios_as_the_model": {"quick": 8, "thorough": 150}}
-REQUIRED_SEEN = {"examples_tables": ["rows_added_at_run_time"], "scenario_status_counted": ["passed", "failed", "error", "hook_error", "skipped", "untested"],
+REQUIRED_SEEN = {"examples_tables": ["rows_added_at_run_time"], "formatter_outfile": ["dash_for_stdout", "not_given"], "scenario_status_counted": ["passed", "failed", "error", "hook_error", "skipped", "untested"],
                  "format_printed": FORMATS, "feature_titles": ["unique", "duplicate"], "scenario_title_class": ["format_metacharacters"], "junit_reporting": ["command_line", "configuration_file", "off"],
                  "interim_summary": ["printed_from_after_feature"]}
 NSHARDS = {"quick": 16, "thorough": 16}
@@ -392,7 +392,10 @@ def subprocess_summary(mon, rng, case, which="command_line"):
             with open(os.path.join(proj.root, "behave.ini"), "w") as fh:
                 fh.write("[behave]\njunit = true\njunit_directory = reports-junit\n")
             extra, how = [], "configuration_file"
-        res = proj.run(case["args"] + extra + ["-f", "progress"])
+        # the formatter's outfile may be named '-' (standard output, the default spelled out)
+        out_spelling = rng.choice([[], [], ["-o", "-"], ["--outfile=-"]])
+        mon.seen("formatter_outfile", "dash_for_stdout" if out_spelling else "not_given")
+        res = proj.run(case["args"] + extra + ["-f", "progress"] + out_spelling)
     finally:
         proj.close()
     if res.get("timeout"):
